@@ -885,10 +885,16 @@ func (e *vC03Env) runConcurrent(c *vC03Case, hi int) {
 		ret := atomic.AddInt64(&tick, 1)
 		return vC03Rec{client: client, in: in, out: out, call: call, ret: ret}
 	}
+	// a third of the histories are stampedes: nothing is locked yet and every client's first call, released by one
+	// barrier, is the complete lock request of its own transaction (the check-then-act window of a lock)
+	stampede := rng.Intn(3) == 0
+	if stampede {
+		r.Count("histories_starting_with_a_lock_stampede", 1)
+	}
 	// random starting state, produced by ordinary calls from one client (part of the history)
 	for t, tx := range c.txs {
 		x := rng.Intn(100)
-		if x < 30 {
+		if x < 30 || stampede {
 			continue
 		}
 		recs = append(recs, do(0, &vC03In{Op: vC03OpLock, Tx: t, Slots: append([]int{}, tx.slots...), Full: true, Fork: rng.Intn(5) == 0}))
@@ -913,6 +919,10 @@ func (e *vC03Env) runConcurrent(c *vC03Case, hi int) {
 		for k := 0; k < per; k++ {
 			plans[i] = append(plans[i], e.genOp(rng, c, finals, noWrite, true))
 		}
+		if stampede {
+			t := i % len(c.txs)
+			plans[i][0] = &vC03In{Op: vC03OpLock, Tx: t, Slots: append([]int{}, c.txs[t].slots...), Full: true}
+		}
 	}
 	results := make([][]vC03Rec, g)
 	start := make(chan struct{})
@@ -923,8 +933,12 @@ func (e *vC03Env) runConcurrent(c *vC03Case, hi int) {
 			defer wg.Done()
 			lr := r.Fork("c03-conc", hi*64+i)
 			<-start
-			for _, in := range plans[i] {
-				switch lr.Intn(4) {
+			for k, in := range plans[i] {
+				x := lr.Intn(4)
+				if stampede && k == 0 {
+					x = 3
+				}
+				switch x {
 				case 0:
 					runtime.Gosched()
 				case 1:
